@@ -40,6 +40,10 @@ type Params struct {
 	Shutdown bool
 	// Inner: "finite" / "valid" puts a real replayer (automatic IDs) behind the recording one.
 	Inner string
+	// Phased: the subscribers register one after the other (each Subscribe is started once the previous one has
+	// reached Joe's loop) and the publishers start afterwards; map iteration in canonical order only. For
+	// scenarios with many subscribers, where only Joe and the publishers interleave.
+	Phased bool
 }
 
 type world struct {
@@ -68,6 +72,9 @@ func body(p Params) func() {
 			v.Now = func() time.Time { return time.Date(2030, 1, 1, 0, 0, 0, 0, time.UTC) }
 			rep.Inner = v
 		}
+		if p.Phased {
+			rep.Reg = vrt.MakeChan[string](64)
+		}
 		j := &sse.Joe{Replayer: rep}
 		if p.PreInit && p.Inner != "" {
 			jh.PreInitFor(j, true)
@@ -92,6 +99,9 @@ func body(p Params) func() {
 				ret.Poke(1)
 				rec.Returned, rec.Err = true, err
 			}))
+			if p.Phased {
+				vrt.Recv(rep.Reg)
+			}
 			if sp.Cancel {
 				others = append(others, vrt.GoNamed(fmt.Sprintf("C%d", i+1), func() {
 					rec.DoneBefore = map[string]bool{}
@@ -208,7 +218,7 @@ func sig(r *vrt.Result, msg string) string {
 
 func scen(p Params) run.Scenario {
 	return run.Scenario{Name: p.Name, Body: body(p), Check: check, Sig: sig, Summary: summary,
-		Opts: vrt.Options{PreemptBound: p.Preempt, FaultBound: -1, OrderBound: -1, Prune: true, Race: true}}
+		Opts: vrt.Options{PreemptBound: p.Preempt, FaultBound: -1, OrderBound: map[bool]int{false: -1, true: 0}[p.Phased], Prune: true, Race: true}}
 }
 
 var (
@@ -283,6 +293,12 @@ func Scenarios(tier string) []run.Scenario {
 			Subs: []SubP{{Topics: tA}, {Topics: tD}},
 			Pubs: [][]MsgP{{{Tag: "m1", Topics: []string{"b", "a", "b"}}, {Tag: "m2", Topics: []string{"a", "a"}}, {Tag: "m3", Topics: []string{"c", "b", "c", "b"}}}}})
 	}
+	// nine subscribers (thresholds on the number of subscribers), registered one after the other; topic lists in which
+	// the common topic comes first, last and in the middle
+	add(Params{Name: "nine-subscribers", PreInit: true, Preempt: -1, Phased: true,
+		Subs: []SubP{{Topics: tAB}, {Topics: []string{"b", "a"}}, {Topics: []string{"c", "b"}}, {Topics: tA}, {Topics: tB}, {Topics: []string{"c", "a"}},
+			{Topics: []string{"d", "e", "b"}}, {Topics: []string{"zz"}}, {Topics: []string{"b", "c", "d"}}},
+		Pubs: [][]MsgP{{{Tag: "m1", Topics: tB}, {Tag: "m2", Topics: tA}, {Tag: "m3", Topics: []string{"c", "b"}}, {Tag: "m4", Topics: []string{"e"}}}}})
 	// a neighbour fails: the others still get every message exactly once
 	for f := 0; f < 3; f++ {
 		for at := 1; at <= 2; at++ {
@@ -309,7 +325,7 @@ func Scenarios(tier string) []run.Scenario {
 
 var Check = &run.Check{
 	ID: "C03", Level: "model_checking",
-	Rule: "Scenarios: 2-3 subscribers on disjoint/overlapping/default topics (one of them cancelled by a thread that first notes which Publish calls had returned), 2-3 publisher threads with 3-4 messages, fast and slow (yielding) clients, Joe pre-initialised or initialised by the racing calls, real Finite/ValidReplayer behind the recorder with topic lists that repeat topics next to a default-topic subscriber; one prebuilt *Message value published repeatedly (its publications told apart by the replayer's Put order), final Shutdown (or a Shutdown racing everything, after noting which Publish calls had returned); all interleavings (unbounded, state-key pruning), all select tie-breaks, all map orders. The recording replayer's call order is the serialisation witness.",
+	Rule: "Scenarios: 2-3 subscribers on disjoint/overlapping/default topics (one of them cancelled by a thread that first notes which Publish calls had returned), 2-3 publisher threads with 3-4 messages, fast and slow (yielding) clients, Joe pre-initialised or initialised by the racing calls, nine subscribers registered one after the other; real Finite/ValidReplayer behind the recorder with topic lists that repeat topics next to a default-topic subscriber; one prebuilt *Message value published repeatedly (its publications told apart by the replayer's Put order), final Shutdown (or a Shutdown racing everything, after noting which Publish calls had returned); all interleavings (unbounded, state-key pruning), all select tie-breaks, all map orders. The recording replayer's call order is the serialisation witness.",
 	Assumptions: []string{
 		"schedules are explored at the granularity of synchronisation operations under sequential consistency (DESIGN.md 2.1)",
 		"'published before cancellation was requested' is decided inside each execution through a shared flag set after Publish returned and read by the cancelling thread (an under-approximation of what is owed, never an over-approximation)",
